@@ -35,39 +35,39 @@ type SiteAssert struct {
 }
 
 type LoopSpec struct {
-	Invariants []Clause
+	Invariants  []Clause
 	StepAsserts []Clause // checked at the end of every iteration (may speak about this iteration's call sites)
-	Unroll     int
+	Unroll      int
 }
 
 type Contract struct {
-	Func     string
-	File     string
-	Line     int
-	Props    []string
-	Arith    string
-	Pure     bool
-	Assumed  bool
-	MayPanic bool
-	NoBody   bool // contract used at call sites only; body not verified (must be listed as trusted)
-	Sites    []SiteDecl
-	Requires []Clause
-	Ensures  []Clause
-	Asserts  []SiteAssert
-	Loops    map[int]*LoopSpec
-	Dead     map[string]bool // "return#3", "block#5"
-	Lets     []LetDecl
-	Fresh    []string // results declared fresh (newly allocated) by an assumed contract
-	Modifies []Clause // expressions naming the cells a call may modify; nil+!Pure => everything reachable
-	ModSet   bool
-	Notes    []string
-	IsInit   bool     // the synthetic contract of a package initializer (init-establishes)
-	Invokes  []string // function-typed parameters the (assumed) callee calls; last(p) / invoked(p) in its ensures refer to the last such call
-	LoopFrames bool // (pure functions) memory that existed on entry keeps its contents through loops
-	FrameTrusted string // reason why the frame condition is trusted rather than checked syntactically
-	Private  []string // local pointer variables whose pointee is reachable only through them (fresh, never handed on)
+	Func         string
+	File         string
+	Line         int
+	Props        []string
+	Arith        string
+	Pure         bool
+	Assumed      bool
+	MayPanic     bool
+	NoBody       bool // contract used at call sites only; body not verified (must be listed as trusted)
+	Sites        []SiteDecl
+	Requires     []Clause
+	Ensures      []Clause
+	Asserts      []SiteAssert
+	Loops        map[int]*LoopSpec
+	Dead         map[string]bool // "return#3", "block#5"
+	Lets         []LetDecl
+	Fresh        []string // results declared fresh (newly allocated) by an assumed contract
+	Modifies     []Clause // expressions naming the cells a call may modify; nil+!Pure => everything reachable
+	ModSet       bool
+	Notes        []string
+	IsInit       bool     // the synthetic contract of a package initializer (init-establishes)
+	Invokes      []string // function-typed parameters the (assumed) callee calls; last(p) / invoked(p) in its ensures refer to the last such call
+	LoopFrames   bool     // (pure functions) memory that existed on entry keeps its contents through loops
+	FrameTrusted string   // reason why the frame condition is trusted rather than checked syntactically
+	Private      []string // local pointer variables whose pointee is reachable only through them (fresh, never handed on)
 	StableFields []string // expr.field: a single field no function but the allocating one ever assigns
-	Stable   []string // parameters (pointers to structs) whose own cells no callee modifies
+	Stable       []string // parameters (pointers to structs) whose own cells no callee modifies
 }
 
 type LetDecl struct {
@@ -94,7 +94,9 @@ type Lemma struct {
 }
 
 // Decoded is an assumed postcondition of a decoder for a particular destination type:
-//   //@ decoded MerkleTreeLeaf by tls.Unmarshal: v.TimestampedEntry != nil
+//
+//	//@ decoded MerkleTreeLeaf by tls.Unmarshal: v.TimestampedEntry != nil
+//
 // holds (when the decoder returns a nil error) for the object v points to.
 type Decoded struct {
 	Type   string
@@ -120,13 +122,13 @@ type LayoutField struct {
 }
 
 type ContractFile struct {
-	Path      string
-	Dir       string
-	Contracts []*Contract
-	Specs     []*SpecFunc
-	Lemmas    []*Lemma
-	Decoded   []*Decoded
-	Layouts   []*Layout
+	Path       string
+	Dir        string
+	Contracts  []*Contract
+	Specs      []*SpecFunc
+	Lemmas     []*Lemma
+	Decoded    []*Decoded
+	Layouts    []*Layout
 	GlobalInvs []Clause // facts about package-level variables established by package initialisation and never changed
 	InitInvs   []Clause // the global invariants that are also proved on the package initializer (`init-establishes`)
 }
